@@ -4,6 +4,7 @@ go 1.22.12
 
 require (
 	ariga.io/atlas v0.0.0
+	github.com/DATA-DOG/go-sqlmock v1.5.0
 	github.com/hashicorp/hcl/v2 v2.13.0
 	github.com/mattn/go-sqlite3 v1.14.24
 )
